@@ -4,6 +4,7 @@ import (
 	"fmt"
 	"os"
 	"path/filepath"
+	"regexp/syntax"
 	"strconv"
 	"strings"
 	"time"
@@ -148,7 +149,7 @@ func (sp *Space) Haystacks(u int) [][]byte {
 		return sp.HP
 	}
 	p := sp.Pats[u]
-	emb := sp.T.SeedEmbW >= 0 && (sp.T.SeedEmbFirst == 0 || u-sp.NP < sp.T.SeedEmbFirst)
+	emb := sp.T.SeedEmbW >= 0 && (sp.T.SeedEmbFirst == 0 || u-sp.NP < sp.T.SeedEmbFirst) && !heavy(p)
 	tn := sp.T.TokN
 	if emb && sp.T.SeedEmbTokN > 0 {
 		tn = sp.T.SeedEmbTokN
@@ -232,4 +233,26 @@ func SweepPlan(sp *Space, level, rule string, needEng, needRef bool, body PerHay
 		Describe: func(u int) string { return fmt.Sprintf("pattern %q", sp.Pats[u]) },
 		Rule:     rule, Level: level, Bounds: sp.Bounds(), Budget: sp.T.Budget,
 	}
+}
+
+// heavy reports whether the pattern contains a very large character class (\pL, \w under (?i) with Unicode, …):
+// its automaton has thousands of states and every search is ~100x slower, so such patterns are explored on the
+// token words only, without the long embeddings.
+func heavy(p string) bool {
+	re, err := syntax.Parse(p, syntax.Perl)
+	if err != nil {
+		return false
+	}
+	n := 0
+	var walk func(*syntax.Regexp)
+	walk = func(r *syntax.Regexp) {
+		if r.Op == syntax.OpCharClass {
+			n += len(r.Rune) / 2
+		}
+		for _, s := range r.Sub {
+			walk(s)
+		}
+	}
+	walk(re)
+	return n > 100
 }
